@@ -731,6 +731,50 @@ def suite_gating(ctx):
     ctx.cov['suites'][tag]['F6_config_registers_task'] = obs[cases.index(('enabled', 1, None, 1))]
 
 
+ANCHORS = {
+    'mistral/services/expiration_policy.py': ['_delete_executions', '_delete_until_depleted', '_delete',
+                                              'run_execution_expiration_policy', '_check_ignored_states_config', '__init__'],
+    'mistral/db/v2/sqlalchemy/api.py': ['get_expired_executions', 'get_superfluous_executions',
+                                        '_get_completed_root_executions_query', 'delete_workflow_execution'],
+}
+
+
+def measured_coverage(ctx, fn):
+    """Run fn() under `coverage` restricted to the anchored files; record per anchored function the
+    executable lines never reached (so an unreached branch of the code is visible in the evidence)."""
+    import ast
+    import os
+    try:
+        import coverage
+    except ImportError:
+        fn()
+        return
+    files = [os.path.join(core.REPO, f) for f in ANCHORS]
+    cov = coverage.Coverage(include=files, data_file=None, branch=False)
+    cov.start()
+    try:
+        fn()
+    finally:
+        cov.stop()
+    out = {}
+    for rel, names in ANCHORS.items():
+        path = os.path.join(core.REPO, rel)
+        try:
+            _, stmts, _, missing, _ = cov.analysis2(path)
+        except Exception as e:       # never let the measurement decide the verdict
+            out[rel] = 'not measured: %r' % (e,)
+            continue
+        tree = ast.parse(open(path).read())
+        for node in ast.walk(tree):
+            if isinstance(node, ast.FunctionDef) and node.name in names:
+                if node.name == '__init__' and 'expiration_policy' not in rel:
+                    continue
+                body = [l for l in stmts if node.lineno < l <= node.end_lineno]
+                miss = [l for l in missing if node.lineno < l <= node.end_lineno]
+                out['%s:%s' % (os.path.basename(rel), node.name)] = {'statements': len(body), 'never_executed_lines': miss}
+    ctx.cov['anchored_function_coverage'] = out
+
+
 def run(ctx):
     Db.boot()
     try:
@@ -740,12 +784,12 @@ def run(ctx):
                            'negative, around the population size) x ignored_states (incl. invalid names); distinct = distinct '
                            '(suite, population, config); evaluate non-trivial = something deleted or evaluation raised')
         rng = ctx.rng
-        suite_evaluate(ctx, [dict(c) for c in CORPUS], 'evaluate_corpus')
+        measured_coverage(ctx, lambda: (suite_evaluate(ctx, [dict(c) for c in CORPUS], 'evaluate_corpus'),
+                                        suite_gating(ctx)))
         suite_evaluate(ctx, [gen_case(rng) for _ in range(ctx.n(2500, 30000))], 'evaluate')
         suite_queries(ctx, [dict(c) for c in CORPUS] + [gen_case(rng) for _ in range(ctx.n(500, 6000))])
         suite_cascade(ctx, [dict(c) for c in CORPUS] + [gen_case(rng) for _ in range(ctx.n(400, 5000))])
         suite_delete_failure(ctx, [dict(c) for c in CORPUS] + [gen_case(rng) for _ in range(ctx.n(150, 1500))])
-        suite_gating(ctx)
         ev = ctx.cov['suites'].get('evaluate', {})
         if ev.get('F6_unset_age_raises'):
             ctx.notes.append('observation F6: older_than unset -> every evaluation raises TypeError (timedelta(minutes=None)) before any '
